@@ -494,6 +494,54 @@ def _shorten(o, depth=0):
     return o
 
 
+def confirm_violations(ctx: Ctx) -> None:
+    """Before anything is reported, a sample of the violating cases is executed again on the working tree and judged
+    again by TLC.  A violation of a deterministic library reproduces; if none of the sample does, the first verdicts came
+    from a transient state of the machinery and the run is a machinery error, not a statement about the library.
+    (C18 is about nondeterminism itself and is exempt.)"""
+    prop = ctx.prop
+    if not ctx.violations or not getattr(prop, "confirm", True):
+        return
+    sample, seen = [], set()
+    for c, rec, v in ctx.violations:
+        if c not in seen and isinstance(rec.get("gen"), dict):
+            seen.add(c)
+            sample.append((c, rec))
+        if len(sample) >= 3:
+            break
+    if not sample:
+        return
+    probe = Ctx(prop, ctx.tier, ctx.seed)
+    try:
+        recs = []
+        suite_mods = set()
+        for c, rec in sample:
+            g = rec["gen"]
+            if g.get("kind") == "observed":
+                suite_mods.add(rec.get("_observed_module", prop.trace_module))
+                continue
+            try:
+                r = prop.execute(g)
+            except Exception:  # noqa
+                continue
+            recs.extend(r if isinstance(r, list) else ([r] if r is not None else []))
+        by_mod: dict[str, list] = {}
+        for r in recs:
+            by_mod.setdefault(r.pop("_module", prop.trace_module), []).append(r)
+        for mod in prop.observed_from_suite if suite_mods else []:
+            by_mod.setdefault(mod, []).extend(records_from_repo_tests(mod))
+        for mod, rs in by_mod.items():
+            validate_records(probe, rs, module=mod)
+        again = {c for c, _, _ in probe.violations}
+        if not (again & {c for c, _ in sample}):
+            raise MachineryError(
+                f"{len(ctx.violations)} verdicts were negative but none of {len(sample)} sampled cases reproduced when executed "
+                f"and judged again on the same tree (clauses {sorted(c for c, _ in sample)}): transient machinery state, no verdict")
+        ctx.notes.append(f"violations confirmed by re-execution: {sorted(again)}")
+    finally:
+        probe.scratch.cleanup()
+
+
 def finish(ctx: Ctx) -> int:
     prop = ctx.prop
     wall = round(time.time() - ctx.t0, 2)
@@ -612,6 +660,7 @@ def run_prop(prop: Prop, tier: str, seed: int) -> int:
         for mod, rs in by_mod.items():
             validate_records(ctx, rs, module=mod)
         prop.extra_checks(ctx)
+        confirm_violations(ctx)
         if harness_exc:
             ctx.notes.append(f"{len(harness_exc)} cases raised inside the driver: {harness_exc[0][0]}")
         rc = finish(ctx)
